@@ -351,6 +351,23 @@ class Exec:
         ty = self.m.resolve(ty); n = self.m.sizeof(ty)
         if not isinstance(addr, int):
             alt = self._addr_alts(addr)
+            if alt is None and z3.is_bv(addr) and not isinstance(ty, (StructTy, ArrTy)):
+                # table lookup: the feasible addresses under the path condition (at most 64), one load each, chosen by the address
+                vals = []; sol = z3.Solver(); sol.set('timeout', self.branch_timeout)
+                for c in st.pc: sol.add(c)
+                while len(vals) <= 64:
+                    r = sol.check(); self.stats['queries'] += 1
+                    if r == z3.unknown: raise Unsupported('solver unknown while enumerating a symbolic address')
+                    if r != z3.sat: break
+                    a = sol.model().eval(addr, model_completion=True).as_long(); vals.append(a); sol.add(addr != z3.BitVecVal(a, 64))
+                if not vals or len(vals) > 64: raise Unsupported('symbolic load address with %s feasible values' % ('no' if not vals else 'more than 64'))
+                out = None
+                for a in reversed(vals):
+                    v = self.load(st, a, ty)
+                    if out is None: out = v
+                    elif isinstance(ty, FloatTy): out = z3.If(addr == z3.BitVecVal(a, 64), self.dom.z(v), self.dom.z(out))
+                    else: out = self.ite(addr == z3.BitVecVal(a, 64), v, out, ty)
+                return out
             if alt is not None and not isinstance(ty, (StructTy, ArrTy)):
                 c, a, b = alt; va = self.load(st, a, ty); vb = self.load(st, b, ty)
                 if isinstance(ty, FloatTy): return z3.If(c, self.dom.z(va), self.dom.z(vb))
@@ -585,12 +602,19 @@ class Exec:
             else: raise Unsupported('gep into %r' % r)
         if isinstance(base, int) and isinstance(off, int): return (base + off) & MASK(64)
         return self.sym_ptr(st, base, off)
-    def sym_ptr(self, st, base, off): raise Unsupported('symbolic gep')
+    def sym_ptr(self, st, base, off):
+        # an address with a symbolic index (a lookup table): a 64-bit term; a load through it enumerates the feasible cells (see load)
+        if isinstance(base, int) and z3.is_bv(off) and off.size() == 64: return z3.BitVecVal(base, 64) + off
+        raise Unsupported('symbolic gep')
     def addmul(self, off, i, sz, t):
         if isinstance(i, int) and isinstance(off, int): return off + i * sz
         return self.sym_index(off, i, sz, t)
     def sym_index(self, off, i, sz, t):
         if z3.is_expr(i) and 'garbi_' in str(i): raise GarbageUse('an address is computed from heap storage that was never written (index %s)' % str(i)[:80])
+        if z3.is_bv(i) and isinstance(sz, int):
+            ii = i if i.size() == 64 else (z3.SignExt(64 - i.size(), i) if i.size() < 64 else z3.Extract(63, 0, i))
+            o = off if z3.is_bv(off) else z3.BitVecVal(off, 64)
+            return o + ii * z3.BitVecVal(sz, 64)
         raise Unsupported('symbolic gep index')
 
     # ---------------- int ops
